@@ -28,12 +28,12 @@ ASSUME = [
 ]
 
 SRC = '''module m(si, ck, a, b, so, z, y); input si, ck, a, b; output so, z, y; wire q1, q2, q3, q4, n1;
- DFFX1 f1(.D(si), .CLK(ck), .Q(q1)); DFFX1 f2(.D(n1), .CLK(ck), .Q(q2)); DFFX1 f3(.D(q2), .CLK(ck), .Q(q3), .QN(q4));
+ DFFX1 rxI(.D(si), .CLK(ck), .Q(q1)); DFFX1 f2(.D(n1), .CLK(ck), .Q(q2)); DFFX1 f3S(.D(q2), .CLK(ck), .Q(q3), .QN(q4));
  XOR2X1 g0(.IN1(q1), .IN2(a), .Q(n1)); AND2X1 g1(.IN1(b), .IN2(q3), .Q(z)); NBUFFX2 g2(.INP(q3), .Z(so)); NOR2X1 g3(.IN1(q4), .IN2(a), .QN(y)); endmodule'''
 
 
 SRC2 = '''module m(b, so, a, z, si, y, ck); input si, ck, a, b; output so, z, y; wire q1, q2, q3, q4, n1;
- DFFX1 f3(.D(q2), .CLK(ck), .Q(q3), .QN(q4)); DFFX1 f1(.D(si), .CLK(ck), .Q(q1)); DFFX1 f2(.D(n1), .CLK(ck), .Q(q2));
+ DFFX1 f3S(.D(q2), .CLK(ck), .Q(q3), .QN(q4)); DFFX1 rxI(.D(si), .CLK(ck), .Q(q1)); DFFX1 f2(.D(n1), .CLK(ck), .Q(q2));
  XOR2X1 g0(.IN1(q1), .IN2(a), .Q(n1)); AND2X1 g1(.IN1(b), .IN2(q3), .Q(z)); NBUFFX2 g2(.INP(q3), .Z(so)); NOR2X1 g3(.IN1(q4), .IN2(a), .QN(y)); endmodule'''
 
 
@@ -57,8 +57,8 @@ class SymStr(list):
 def cases(tier):
     """(chain layout, marker subset, group orders, call sequence kind)"""
     C = []
-    cells = ['f1', 'f2', 'f3']
-    layouts = [[('1', 'si', cells, 'so')], [('1', 'si', ['f1', 'f2'], 'so'), ('2', 'a', ['f3'], 'z')]]
+    cells = ['rxI', 'f2', 'f3S']
+    layouts = [[('1', 'si', cells, 'so')], [('1', 'si', ['rxI', 'f2'], 'so'), ('2', 'a', ['f3S'], 'z')]]
     for lay in layouts:
         ngaps = sum(len(ch[2]) + 1 for ch in lay)
         for markers in itertools.product([0, 1], repeat=ngaps):
@@ -68,6 +68,9 @@ def cases(tier):
                     if tier == 'quick' and (pi_order[0] == 'b') != (po_order[0] == 'y'): continue
                     for seq in ('sa', 'loc', 'loc-nolaunch', 'mixed', 'loc-nocapture'):
                         C.append((lay, markers, pi_order, po_order, seq))
+    for markers in ((2, 0, 0, 0), (0, 2, 0, 1), (0, 0, 0, 2), (1, 3, 0, 0)):          # several markers in one gap (single chain)
+        for seq in ('sa', 'loc'):
+            C.append((layouts[0], markers, ['si', 'ck', 'a', 'b'], ['so', 'z', 'y'], seq))
     return C
 
 
@@ -85,9 +88,9 @@ def build_ir(case, strings):
     for name, si, cells, so in lay:
         lst = [si]
         for cname in cells:
-            if next(mi): lst.append('!')
+            lst += ['!'] * next(mi)                      # a gap may hold several markers (two adjacent markers cancel)
             lst.append(cname)
-        if next(mi): lst.append('!')
+        lst += ['!'] * next(mi)
         lst.append(so)
         chains[name] = lst
     groups = {'_pi': list(pi_order), '_po': list(po_order)}
